@@ -8,6 +8,7 @@ import OpenHTF.Driver.C02
 import OpenHTF.Driver.C01
 import OpenHTF.Driver.C08
 import OpenHTF.Driver.C09
+import OpenHTF.Driver.C06
 open OpenHTF.Driver
 
 def stripNl (s : String) : String :=
@@ -25,6 +26,7 @@ def dispatch (line : String) : String :=
   | "C01" :: ts => C01.handle ts
   | "C08" :: ts => C08.handle ts
   | "C09" :: ts => C09.handle ts
+  | "C06" :: ts => C06.handle ts
   | "C03" :: ts => C02.handleC03 ts
   | _ => reply false false "unknown-property"
 
